@@ -127,4 +127,45 @@ MUTANTS = [
         return Ok(());
     }""",
       expect=r'worker:effective-epoch'),
+
+ # ---------------- C16
+ dict(id='C16-merge-nonce-dropped', pid='C16', file='actors/paych/src/lib.rs',
+      old="""                if other_ls.nonce >= merge.nonce {
+                    return Err(actor_error!(illegal_argument;
+                            "merged lane in voucher has outdated nonce, cannot redeem"));
+                }
+""", new="""""", expect=r'update:merge-nonce'),
+ dict(id='C16-nonce-gt', pid='C16', file='actors/paych/src/lib.rs',
+      old="""                if state.nonce >= sv.nonce {""", new="""                if state.nonce > sv.nonce {""", expect=r'update:lane-nonce'),
+ dict(id='C16-signer-self', pid='C16', file='actors/paych/src/lib.rs',
+      old="""        let signer = if rt.message().caller() == st.from { st.to } else { st.from };""",
+      new="""        let signer = if rt.message().caller() == st.from { st.from } else { st.to };""", expect=r'update:signer-is-other-party'),
+ dict(id='C16-time-lock-max-ignored', pid='C16', file='actors/paych/src/lib.rs',
+      old="""        if sv.time_lock_max != 0 && rt.curr_epoch() > sv.time_lock_max {""",
+      new="""        if sv.time_lock_max != 0 && rt.curr_epoch() > sv.time_lock_max + SETTLE_DELAY {""", expect=r'update:time_lock_max'),
+ dict(id='C16-balance-check-dropped', pid='C16', file='actors/paych/src/lib.rs',
+      old="""            if new_send_balance > rt.current_balance() {
+                return Err(actor_error!(illegal_argument;
+                    "not enough funds in channel to cover voucher"));
+            }
+""", new="""""", expect=r'update:balance-covered'),
+ dict(id='C16-collect-early', pid='C16', file='actors/paych/src/lib.rs',
+      old="""        if st.settling_at == 0 || rt.curr_epoch() < st.settling_at {""",
+      new="""        if st.settling_at == 0 {""", expect=r'collect:delay-elapsed'),
+ dict(id='C16-collect-swapped-recipients', pid='C16', file='actors/paych/src/lib.rs',
+      old="""        extract_send_result(rt.send_simple(&st.to, METHOD_SEND, None, st.to_send))""",
+      new="""        extract_send_result(rt.send_simple(&st.from, METHOD_SEND, None, st.to_send))""", expect=r'collect:payee'),
+ dict(id='C16-settle-height-lowered', pid='C16', file='actors/paych/src/lib.rs',
+      old="""                if st.settling_at != 0 && st.settling_at < sv.min_settle_height {""",
+      new="""                if st.settling_at != 0 {""", expect=r'update:settling_at-only-raised'),
+ dict(id='C16-secret-skipped-when-empty-secret', pid='C16', file='actors/paych/src/lib.rs',
+      old="""        if !sv.secret_pre_image.is_empty() {""",
+      new="""        if !sv.secret_pre_image.is_empty() && !params.secret.is_empty() {""", expect=r'update:secret'),
+ dict(id='C16-redeemed-not-updated', pid='C16', file='actors/paych/src/lib.rs',
+      old="""            lane_state.redeemed = sv.amount;""",
+      new="""            lane_state.redeemed = sv.amount.clone() - &lane_state.redeemed;""", expect=r'update:'),
+ dict(id='C16-auth-not-readonly-refactor', pid='C16', file='actors/paych/src/lib.rs',
+      old="""        let pch_addr = rt.message().receiver();""",
+      new="""        let receiver_info = rt.message();
+        let pch_addr = receiver_info.receiver();""", expect=None),
 ]
